@@ -76,6 +76,20 @@ def einsum (S : SR Ext) (fuel : Nat) (j : EJob) (next : Nat) : PT :=
             S.prod (j.ops.map (fun p => viewAt S σ p.1 ρ)))))
         Bn.normalize { physical := phys, paxes := outAxes, vaxes := outVaxes, default := S.zero }
 
+/-! ### the fuel side condition of the theorem `C07.einsum_dense`, decidable per job -/
+
+/-- no physical axis of `e` is bound by `σ` -/
+def unbound (σ : Subst) (e : Axis) : Bool := e.fv.all (fun q => (bound σ q.1).isNone)
+
+/-- `FUEL` units of fuel resolve every clone that `einsum` computes: no variable is bound twice, the clone of every
+binding and of every output index's table entry contains no bound physical axis -/
+def resolved (fuel : Nat) (j : EJob) (next : Nat) : Bool :=
+  let c := collect fuel j next
+  let σ := c.2.2.subst
+  nodupNat (σ.map (·.1)) &&
+  σ.all (fun p => unbound σ (clone σ (FUEL - 1) p.2)) &&
+  j.out.all (fun v => unbound σ (clone σ FUEL ((c.1.lookup v).getD unitAxis)))
+
 /-! ### protocol -/
 
 def boolExtSR : SR Ext :=
@@ -95,7 +109,7 @@ def handle : List String → Option (Except String String)
         | "bool" => pure boolExtSR
         | _ => throw "bad semiring"
       let r := einsum S FUEL j next
-      pure (Bn.showPT r ++ " " ++ showBool r.wf)
+      pure (Bn.showPT r ++ " " ++ showBool (collect FUEL j next).2.1 ++ " " ++ showBool (resolved FUEL j next) ++ " " ++ showBool r.wf)
   | _ => none
 
 end Fggs.Ei
